@@ -413,6 +413,7 @@ def _next_byte_address(block):
 
 def check_c03(mt, sess):
     world, model = mt.world, mt.model
+    has_pmark = any(t.kind == "pmark" for _, u in model.units() for t in u.toks)
     addr = mt.tok_addr()
     real, buried, dangling, last_of = flatten_cfg(world)
     if dangling:
@@ -521,6 +522,11 @@ def check_c03(mt, sess):
             continue
         # normalise and compare
         miss, spur = _edge_diff(e, r, section_end)
+        if spur and has_pmark:
+            # a call whose return site was deleted with retarget_to_proxy
+            # returns 'to the proxy': such a Return edge is not demanded and
+            # not objected to
+            spur = {y for y in spur if not (y[0] == "Return" and y[3][0] == "proxy")}
         if miss or spur:
             kinds = sorted({x[0] for x in miss} | {x[0] for x in spur})
             tok_kind = next((toks[tid].ikind for tid, ta in addr.items() if ta == a and tid in toks and toks[tid].kind == "insn"), None)
@@ -544,10 +550,23 @@ def expected_edges_skip_pads(model, entry_toks=None):
             keep.append(t)
     if not pads:
         return expect.expected_edges(model, entry_toks)
+    # orphaned padding at the end of a section (what it aligned was deleted)
+    # is not transparent: nothing follows it, a label in front of it names it
+    keep = set()
+    for sname in model.section_order:
+        trailing = []
+        for u in model.sections[sname]:
+            for t in u.toks:
+                if t.is_bytes():
+                    if t.origin == "pad":
+                        trailing.append(id(t))
+                    else:
+                        trailing = []
+        keep.update(trailing)
     saved = {}
     for s, u in model.units():
         saved[id(u)] = u.toks
-        u.toks = [t for t in u.toks if not (t.kind == "insn" and t.ikind == "pad") and not (t.kind == "data" and t.origin == "pad")]
+        u.toks = [t for t in u.toks if id(t) in keep or (not (t.kind == "insn" and t.ikind == "pad") and not (t.kind == "data" and t.origin == "pad"))]
     try:
         return expect.expected_edges(model, entry_toks)
     finally:
